@@ -184,30 +184,34 @@ Qed.
 (* condition / add operands: value and code *)
 Lemma cval_sim : forall L x st st0 lx px tx st1 e s a,
   low_cval x st = Ok (lx, px, tx, st1) -> ev_cval x e = Some a -> Rel L st0 e s -> Inv st ->
-  l_lv st = l_lv st0 -> l_rf st = l_rf st0 -> l_act st = l_act st0 -> Inv st0 ->
+  l_lv st = l_lv st0 -> l_rf st = l_rf st0 ->
+  (forall t, nth_error (l_act st) t = Some false -> untracked st0 (Rg BR t)) ->
   exists s1, exec_instrs lx s = Some s1 /\ Rel L st0 e s1 /\ rop_val s1 px = Some a /\
-    (forall g, untracked st0 g -> (forall t, In t tx -> g <> Rg BR t) -> m_reg s1 g = m_reg s g).
+    (forall g, (forall t, In t tx -> g <> Rg BR t) -> m_reg s1 g = m_reg s g) /\
+    (forall t, px = PReg (Rg BR t) -> nth_error (l_act st1) t = Some true).
 Proof.
-  intros L x st st0 lx px tx st1 e s a H Ha R I Elv Erf Eact I0. destruct x; cbn [low_cval ev_cval] in *.
-  - inversion H; subst. inversion Ha; subst. exists s. cbn. auto.
+  intros L x st st0 lx px tx st1 e s a H Ha R I Elv Erf U. destruct x; cbn [low_cval ev_cval] in *.
+  - inversion H; subst. inversion Ha; subst. exists s. cbn.
+    split; [reflexivity|]. split; [exact R|]. split; [reflexivity|]. split; [auto|intros t X; discriminate].
   - destruct (low_ix ix st) as [p|] eqn:Hix; cbn [bind] in H; [|discriminate].
     destruct (take st) as [[t s1']|] eqn:Ht; cbn [bind] in H; [|discriminate]. inversion H; subst. clear H.
     assert (Hix0 : low_ix ix st0 = Ok p).
     { destruct ix; cbn in *; [exact Hix|]. rewrite <- Elv. exact Hix. }
-    assert (U : untracked st0 (Rg BR t)).
-    { apply untracked_free; [exact I0|]. rewrite <- Eact. apply take_facts in Ht. tauto. }
+    assert (Tf := take_facts _ _ _ Ht). destruct Tf as (Hfree & Hact & _).
+    assert (Ut : untracked st0 (Rg BR t)) by (apply U; exact Hfree).
     exists (set_reg s (Rg BR t) a). unfold Lower.R. cbn [exec_instrs]. rewrite (load_entry _ _ _ _ _ _ _ _ (Rg BR t) Hix0 Ha R).
-    split; [reflexivity|]. split; [apply Rel_set_reg; assumption|]. split.
-    + cbn [rop_val]. apply m_reg_set_same.
-    + intros g _ Hg. apply m_reg_set_other. apply Hg. left; reflexivity.
+    split; [reflexivity|]. split; [apply Rel_set_reg; assumption|]. split; [cbn [rop_val]; apply m_reg_set_same|].
+    split.
+    + intros g Hg. apply m_reg_set_other. apply Hg. left; reflexivity.
+    + intros t' X. inversion X; subst. rewrite Hact. apply nth_set_nth_same. apply nth_error_Some. congruence.
   - unfold rf_lookup in H. destruct (alook r (l_rf st)) as [[[] k]|] eqn:Er; try discriminate.
-    + (* R bank: impossible under the invariant *)
-      destruct (i_rfM _ I _ _ Er) as [(m & X)|X]; discriminate.
-    + inversion H; subst. exists s. cbn. split; [reflexivity|]. split; [exact R|]. split; [|auto].
+    + destruct (i_rfM _ I _ _ Er) as [(m & X)|X]; discriminate.
+    + inversion H; subst. exists s. cbn. split; [reflexivity|]. split; [exact R|]. split; [|split; [auto|intros; discriminate]].
       rewrite Erf in Er. eapply r_rf; eauto.
   - destruct (alook v (l_lv st)) as [r|] eqn:Ev; inversion H; subst. exists s. cbn.
-    split; [reflexivity|]. split; [exact R|]. split; [|auto].
-    rewrite Elv in Ev. destruct (r_lv _ _ _ _ R _ _ Ev) as (z & Hz & Hm). rewrite Hz in Ha. inversion Ha; subst. exact Hm.
+    split; [reflexivity|]. split; [exact R|]. split; [|split; [auto|]].
+    + rewrite Elv in Ev. destruct (r_lv _ _ _ _ R _ _ Ev) as (z & Hz & Hm). rewrite Hz in Ha. inversion Ha; subst. exact Hm.
+    + intros t X. inversion X; subst. eapply (i_lv _ I); eauto.
 Qed.
 
 Lemma src_sim : forall L x st st0 lx px tx st1 e s a,
@@ -598,4 +602,336 @@ Proof.
         assert (Hm : m' <> k).
         { intro X. subst. apply Hne. eapply (i_rfinj _ I); eauto. }
         rewrite m_reg_set_other; [eapply G; eauto|]. intro X. inversion X. contradiction.
+Qed.
+
+(* ------------------------------------------------------------------ states that differ in one untracked register *)
+Definition agree_but (g : reg) (s s' : mst) : Prop :=
+  (forall g', g' <> g -> m_reg s' g' = m_reg s g') /\ (forall a, m_arr s' a = m_arr s a) /\
+  (forall i, m_alloc s' i = m_alloc s i) /\ (forall i, m_inst s' i = m_inst s i) /\
+  m_n s' = m_n s /\ m_script s' = m_script s /\ m_trace s' = m_trace s.
+
+Lemma agree_refl : forall g s, agree_but g s s.
+Proof. intros. unfold agree_but. repeat split; auto. Qed.
+Lemma agree_trans : forall g a b c, agree_but g a b -> agree_but g b c -> agree_but g a c.
+Proof.
+  unfold agree_but. intros g a b c (A1 & A2 & A3 & A4 & A5 & A6 & A7) (B1 & B2 & B3 & B4 & B5 & B6 & B7).
+  split; [intros; rewrite B1, A1; auto|]. split; [intros; rewrite B2, A2; auto|].
+  split; [intros; rewrite B3, A3; auto|]. split; [intros; rewrite B4, A4; auto|].
+  repeat split; congruence.
+Qed.
+Lemma agree_set : forall g s z, agree_but g s (set_reg s g z).
+Proof. intros. unfold agree_but. repeat split; auto. intros. apply m_reg_set_other. assumption. Qed.
+Lemma agree_sym : forall g a b, agree_but g a b -> agree_but g b a.
+Proof.
+  unfold agree_but. intros g a b (A1 & A2 & A3 & A4 & A5 & A6 & A7).
+  split; [intros; symmetry; auto|]. split; [intros; symmetry; auto|].
+  split; [intros; symmetry; auto|]. split; [intros; symmetry; auto|]. repeat split; congruence.
+Qed.
+
+Lemma Rel_agree : forall L st e s s' g, Rel L st e s -> untracked st g -> agree_but g s s' -> Rel L st e s'.
+Proof.
+  intros L st e s s' g [A B C D E F G H I J K] [U1 U2] (A1 & A2 & A3 & A4 & A5 & A6 & A7).
+  apply mkRel.
+  - intro a. rewrite A2. apply A.
+  - exact B.
+  - intros q id Hq. destruct (C _ _ Hq) as [C1 C2]. rewrite A3, A4. auto.
+  - exact D.
+  - intros id Hn. rewrite A3. auto.
+  - exact F.
+  - intros r m Hr z Hz. rewrite A1; [eauto|]. intro X. symmetry in X. eapply U2; eauto.
+  - intros v r Hv. destruct (H _ _ Hv) as (z & H1 & H2). exists z. split; [exact H1|].
+    rewrite A1; [exact H2|]. intro X. symmetry in X. eapply U1; eauto.
+  - congruence.
+  - congruence.
+  - congruence.
+Qed.
+
+(* ------------------------------------------------------------------ loop variables *)
+Lemma Rel_bind : forall L st e s v r i,
+  Rel L st e s -> alook v (l_lv st) = None -> m_reg s (Rg BR r) = Some i ->
+  Rel L (bind_lvr v r st) (bind_lv v i (drop_lv v e)) s.
+Proof.
+  intros L st e s v r i [A B C D E F G H I J K] Hv Hr. constructor; cbn; try assumption.
+  intros v' r' Hv'. destruct (Nat.eqb v' v) eqn:Ev.
+  - inversion Hv'; subst. exists i. split; [reflexivity|exact Hr].
+  - destruct (H _ _ Hv') as (z & H1 & H2). exists z. split; [|exact H2].
+    apply Nat.eqb_neq in Ev. rewrite alookup_aremove_other by exact Ev. exact H1.
+Qed.
+
+Lemma Rel_drop : forall L st e s v, Rel L st e s -> alook v (l_lv st) = None -> Rel L st (drop_lv v e) s.
+Proof.
+  intros L st e s v [A B C D E F G H I J K] Hv. constructor; cbn; try assumption.
+  intros v' r' Hv'. destruct (H _ _ Hv') as (z & H1 & H2). exists z. split; [|exact H2].
+  rewrite alookup_aremove_other; [exact H1|]. intro X. subst. congruence.
+Qed.
+
+(* ------------------------------------------------------------------ rounds of a counted loop *)
+Section Rounds.
+  Variable rg : reg.
+  Variable cbody : list sir.
+  Variable f : Z -> est -> option est.
+  Variables Pre Post : est -> mst -> Prop.
+  Hypothesis body_step : forall i e sg e1,
+    Pre e sg -> m_reg sg rg = Some i -> f i e = Some e1 ->
+    exists sg1, sx cbody sg sg1 /\ Post e1 sg1 /\ m_reg sg1 rg = Some i.
+  Hypothesis post_pre : forall e sg z, Post e sg -> Pre e (set_reg sg rg z).
+
+  Lemma rounds : forall n i st e sg e' b,
+    st <> 0%Z -> b = (i + st * Z.of_nat (S n))%Z -> Pre e sg -> m_reg sg rg = Some i ->
+    iter_loop f (S n) i st e = Some e' ->
+    exists sg1, sxloop rg b st cbody sg (set_reg sg1 rg b) /\ Post e' sg1.
+  Proof.
+    induction n as [|n IH]; intros i st e sg e' b Hst Hb HP Hr Hit; cbn [iter_loop] in Hit.
+    - destruct (f i e) as [e1|] eqn:Hf; [|discriminate]. inversion Hit; subst. clear Hit.
+      destruct (body_step _ _ _ _ HP Hr Hf) as (sg1 & X1 & P1 & R1).
+      exists sg1. split; [|exact P1].
+      eapply sxl_step with (v := i) (v1 := i); eauto; [lia|].
+      replace (i + st * Z.of_nat 1)%Z with (i + st)%Z by lia.
+      apply sxl_done. apply m_reg_set_same.
+    - destruct (f i e) as [e1|] eqn:Hf; [|discriminate].
+      destruct (body_step _ _ _ _ HP Hr Hf) as (sg1 & X1 & P1 & R1).
+      destruct (IH (i + st)%Z st e1 (set_reg sg1 rg (i + st)%Z) e' b Hst) as (sg2 & X2 & P2); auto.
+      + lia.
+      + apply m_reg_set_same.
+      + exists sg2. split; [|exact P2].
+        eapply sxl_step with (v := i) (v1 := i); eauto.
+        intro E. assert (Hz : (st * Z.of_nat (S (S n)) = 0)%Z) by lia. apply Z.mul_eq_0 in Hz. lia.
+  Qed.
+End Rounds.
+
+(* rounds whose body emitted no code: the machine does not move *)
+Section RoundsNoCode.
+  Variable f : Z -> est -> option est.
+  Variables Pre Post : est -> mst -> Prop.
+  Variable rg : reg.
+  Hypothesis body_step0 : forall i e sg e1, Pre e sg -> f i e = Some e1 -> exists sgv, Post e1 sgv /\ agree_but rg sg sgv.
+  Hypothesis post_pre0 : forall e sg, Post e sg -> Pre e sg.
+
+  Lemma rounds0 : forall n i st e sg e',
+    Pre e sg -> iter_loop f (S n) i st e = Some e' -> exists sgv, Post e' sgv /\ agree_but rg sg sgv.
+  Proof.
+    induction n as [|n IH]; intros i st e sg e' HP Hit; cbn [iter_loop] in Hit.
+    - destruct (f i e) as [e1|] eqn:Hf; [|discriminate]. inversion Hit; subst. eapply body_step0; eauto.
+    - destruct (f i e) as [e1|] eqn:Hf; [|discriminate].
+      destruct (body_step0 _ _ _ _ HP Hf) as (sg1 & P1 & A1).
+      destruct (IH _ _ _ _ _ (post_pre0 _ _ P1) Hit) as (sg2 & P2 & A2).
+      exists sg2. split; [exact P2|]. eapply agree_trans; eauto.
+  Qed.
+End RoundsNoCode.
+
+(* ------------------------------------------------------------------ the induction hypotheses *)
+Definition sim_stmt (s : stmt) : Prop :=
+  wfs s = true -> forall L st c st' e e' sg,
+  lower_stmt true s st = Ok (c, st') -> Inv st -> sub (l_len st') L ->
+  eval_stmt s e = Some e' -> Rel L st e sg ->
+  exists sg', sx c sg sg' /\ Rel L st' e' sg'.
+Definition sim_block (b : block) : Prop :=
+  bwfs b = true -> forall L st c st' e e' sg,
+  lower_block true b st = Ok (c, st') -> Inv st -> sub (l_len st') L ->
+  eval_block b e = Some e' -> Rel L st e sg ->
+  exists sg', sx c sg sg' /\ Rel L st' e' sg'.
+
+Lemma Inv_held : forall s1 s2 ts, held s1 s2 ts -> Inv s1 -> Inv s2.
+Proof. intros s1 s2 ts [[_ ->]|(t & _ & Ht)] I; [exact I|eapply Inv_take; eauto]. Qed.
+Lemma held_free : forall s1 s2 ts t, held s1 s2 ts ->
+  nth_error (l_act s2) t = Some false -> nth_error (l_act s1) t = Some false.
+Proof.
+  intros s1 s2 ts t [[_ ->]|(t2 & _ & Ht)] H; [exact H|].
+  apply take_facts in Ht. destruct Ht as (_ & Ha & _). rewrite Ha in H. eapply free_after_take; eauto.
+Qed.
+Lemma held_ts_free : forall s1 s2 ts t, held s1 s2 ts -> In t ts -> nth_error (l_act s1) t = Some false.
+Proof.
+  intros s1 s2 ts t [[-> _]|(t2 & -> & Ht)] Hin; [destruct Hin|].
+  destruct Hin as [<-|[]]. apply take_facts in Ht. tauto.
+Qed.
+
+Lemma rop_keep : forall s s' px a ts st1,
+  rop_val s px = Some a ->
+  (forall g, (forall t, In t ts -> g <> Rg BR t) -> m_reg s' g = m_reg s g) ->
+  (forall t, px = PReg (Rg BR t) -> nth_error (l_act st1) t = Some true) ->
+  (forall t, In t ts -> nth_error (l_act st1) t = Some false) ->
+  rop_val s' px = Some a.
+Proof.
+  intros s s' px a ts st1 Hv K Act Fr. destruct px as [z|[b i]]; [exact Hv|].
+  cbn [rop_val] in *. rewrite K; [exact Hv|]. intros t Hin X. inversion X; subst.
+  specialize (Fr t Hin). rewrite (Act t eq_refl) in Fr. discriminate.
+Qed.
+
+Lemma if_finish : forall L body cbody st s1 stF pre c px py e e' sg sgp bv,
+  sim_block body -> bwfs body = true -> wf_body body = true -> bnoreg body = true ->
+  lower_block true body st = Ok (cbody, s1) -> Inv st -> sub (l_len s1) L ->
+  sba s1 stF ->
+  exec_instrs pre sg = Some sgp -> Rel L st e sgp -> holds_at c px py sgp = Some bv ->
+  (if bv then eval_block body e else Some e) = Some e' ->
+  exists sg', sx [XIf pre c px py cbody] sg sg' /\ Rel L stF e' sg'.
+Proof.
+  intros L body cbody st s1 stF pre c px py e e' sg sgp bv IH Hwf Hwb Hnr Hb I HL S Ep Rp Hh Hev.
+  destruct (proj2 wfs_plain body Hwf) as [Hp He].
+  destruct (proj2 lower_facts body Hp He _ _ _ Hb I) as [I1 X1].
+  assert (Q1 := body_q_restored _ _ _ _ Hp He Hwb Hb I).
+  destruct (proj2 noreg_rf body Hnr Hp He _ _ _ Hb) as [RF1 _].
+  destruct bv.
+  - destruct (IH Hwf L _ _ _ _ _ _ Hb I HL Hev Rp) as (sg' & X & R').
+    exists sg'. split; [|eapply Rel_sba; eauto].
+    eapply sx_cons; [eapply sx_If_true; eauto|apply sx_nil].
+  - inversion Hev; subst. exists sgp. split.
+    + eapply sx_cons; [eapply sx_If_false; eauto|apply sx_nil].
+    + eapply Rel_sba; [|exact S]. eapply Rel_st; [exact Rp|exact Q1| |].
+      * intros v r Hv. rewrite (x_lv _ _ X1) in Hv. exact Hv.
+      * intros r m Hr. rewrite RF1 in Hr. exact Hr.
+Qed.
+
+Lemma sim_if : forall c cb x y body, sim_block body -> sim_stmt (SIf c cb x y body).
+Proof.
+  intros c cb x y body IH Hw L st code st' e e' sg H I HL Hev HR.
+  cbn [wfs] in Hw. apply andb_prop in Hw. destruct Hw as [Hw Hwf]. apply andb_prop in Hw. destruct Hw as [Hwb Hnr].
+  destruct (proj2 wfs_plain body Hwf) as [Hp He].
+  cbn [lower_stmt] in H.
+  destruct (lower_block true body st) as [[cbody s1]|] eqn:Hb; cbn [bind] in H; [|discriminate].
+  destruct (proj2 lower_facts body Hp He _ _ _ Hb I) as [I1 X1].
+  assert (Q1 := body_q_restored _ _ _ _ Hp He Hwb Hb I).
+  destruct (proj2 noreg_rf body Hnr Hp He _ _ _ Hb) as [RF1 _].
+  cbn [eval_stmt] in Hev.
+  destruct (ev_cval x e) as [a|] eqn:Ea; [|discriminate].
+  destruct (match c with CEz | CNz => Some 0%Z | _ => ev_cval y e end) as [b|] eqn:Eb; [|discriminate].
+  destruct cbody as [|c0 cr].
+  - (* nothing emitted *) cbn [is_nil] in H. inv_ok H.
+    destruct (cond_true c a b).
+    + eapply IH; eauto.
+    + inv_ok Hev. exists sg. split; [apply sx_nil|].
+      eapply Rel_st; [exact HR|exact Q1| |].
+      * intros v r Hv. rewrite (x_lv _ _ X1) in Hv. exact Hv.
+      * intros r m Hr. rewrite RF1 in Hr. exact Hr.
+  - cbn [is_nil] in H.
+    destruct (low_cval x s1) as [[[[lx px] tx] s2]|] eqn:Hx; cbn [bind] in H; [|discriminate].
+    assert (Hhx := low_cval_held _ _ _ _ _ _ Hx).
+    destruct (cval_sim L x s1 st lx px tx s2 e sg a Hx Ea HR I1 (x_lv _ _ X1) RF1) as (sg1 & E1 & R1 & V1 & K1 & Act1).
+    { intros t Hf. apply untracked_free; [exact I|]. rewrite <- (x_act _ _ X1). exact Hf. }
+    assert (Sx : sba s1 s2) by (eapply sba_held; eauto).
+    assert (Unary : forall cc, (cc = CEz \/ cc = CNz) -> c = cc ->
+              Ok ([XIf lx cc px (PImm 0%Z) (c0 :: cr)], release_all tx s2) = Ok (code, st') ->
+              exists sg', sx code sg sg' /\ Rel L st' e' sg').
+    { intros cc Hcc -> Hk. inv_ok Hk.
+      assert (Sf : sba s1 (release_all tx s2)) by (eapply sba_trans; [exact Sx|apply sba_release_all]).
+      assert (b = 0%Z) by (destruct Hcc as [->| ->]; inversion Eb; reflexivity). subst b.
+      eapply if_finish with (s1 := s1) (sgp := sg1) (bv := cond_true cc a 0%Z); eauto.
+      - destruct Sf as (_ & _ & _ & _ & _ & _ & Le & _). rewrite <- Le. exact HL.
+      - unfold holds_at. rewrite V1. rewrite cond_true_holds. destruct Hcc as [->| ->]; reflexivity. }
+    assert (Binary : forall cc, cc <> CEz -> cc <> CNz -> c = cc ->
+              (let* (ly, py, ty, st3) := low_cval y s2 in
+               Ok ([XIf (lx ++ ly) cc px py (c0 :: cr)], release_all (tx ++ ty) st3)) = Ok (code, st') ->
+              exists sg', sx code sg sg' /\ Rel L st' e' sg').
+    { intros cc N1 N2 -> Hk.
+      destruct (low_cval y s2) as [[[[ly py] ty] s3]|] eqn:Hy; cbn [bind] in Hk; [|discriminate]. inv_ok Hk.
+      assert (Hhy := low_cval_held _ _ _ _ _ _ Hy).
+      assert (Eb' : ev_cval y e = Some b) by (destruct cc; try exact Eb; congruence).
+      assert (Sx' := Sx). destruct Sx' as (SxM & SxQ & SxN & SxR & SxF & SxV & SxL & SxD).
+      destruct (cval_sim L y s2 st ly py ty s3 e sg1 b Hy Eb' R1 (Inv_held _ _ _ Hhx I1)) as (sg2 & E2 & R2 & V2 & K2 & _).
+      { rewrite SxV. exact (x_lv _ _ X1). }
+      { rewrite SxF. exact RF1. }
+      { intros t Hf. apply untracked_free; [exact I|]. rewrite <- (x_act _ _ X1). eapply held_free; eauto. }
+      assert (V1' : rop_val sg2 px = Some a).
+      { eapply rop_keep with (st1 := s2); eauto. intros t Hin. eapply held_ts_free; eauto. }
+      assert (Sf : sba s1 (release_all (tx ++ ty) s3)).
+      { eapply sba_trans; [exact Sx|].
+        eapply sba_trans; [exact (sba_held _ _ _ Hhy)|apply sba_release_all]. }
+      eapply if_finish with (s1 := s1) (sgp := sg2) (bv := cond_true cc a b); eauto.
+      - destruct Sf as (_ & _ & _ & _ & _ & _ & Le & _). rewrite <- Le. exact HL.
+      - eapply exec_instrs_app; eauto.
+      - unfold holds_at. rewrite V1'. rewrite cond_true_holds. destruct cc; try rewrite V2; try reflexivity; congruence. }
+    destruct c.
+    + apply (Binary CEq); [discriminate|discriminate|reflexivity|exact H].
+    + apply (Binary CNe); [discriminate|discriminate|reflexivity|exact H].
+    + apply (Binary CLt); [discriminate|discriminate|reflexivity|exact H].
+    + apply (Binary CGe); [discriminate|discriminate|reflexivity|exact H].
+    + apply (Unary CEz); [left; reflexivity|reflexivity|exact H].
+    + apply (Unary CNz); [right; reflexivity|reflexivity|exact H].
+Qed.
+
+(* ------------------------------------------------------------------ counted loops *)
+Lemma untracked_loopreg : forall st r, Inv st -> nth_error (l_act st) r = Some false -> untracked st (Rg BR r).
+Proof. intros. apply untracked_free; assumption. Qed.
+
+Lemma loop_core : forall L st v r s1 body cbody s2 a b step n e e1 sg,
+  sim_block body -> bwfs body = true -> wf_body body = true -> (n = 0 -> bnoreg body = true) ->
+  alook v (l_lv st) = None -> take st = Ok (r, s1) ->
+  lower_block true body (bind_lvr v r s1) = Ok (cbody, s2) -> Inv st -> sub (l_len s2) L ->
+  step <> 0%Z -> b = (a + step * Z.of_nat n)%Z ->
+  iter_loop (fun i e' => eval_block body (bind_lv v i (drop_lv v e'))) n a step e = Some e1 ->
+  Rel L st e sg ->
+  exists sg', sx (if is_nil cbody then [] else [XLoop (Rg BR r) a b step cbody]) sg sg' /\
+              Rel L (release r (with_lvs s2 (l_lv st))) (drop_lv v e1) sg'.
+Proof.
+  intros L st v r s1 body cbody s2 a b step n e e1 sg IH Hwf Hwb Hn0 Hv Ht Hb I HL Hst Hbd Hit HR.
+  destruct (proj2 wfs_plain body Hwf) as [Hp He].
+  assert (Tf := take_facts _ _ _ Ht). destruct Tf as (Hfree & Hact1 & _ & Lv1 & Rf1 & Q1 & _).
+  assert (Ib := Inv_bind_loop _ _ _ v Ht I).
+  destruct (proj2 lower_facts body Hp He _ _ _ Hb Ib) as [I2 X2].
+  assert (Q2 := body_q_restored _ _ _ _ Hp He Hwb Hb Ib). cbn [bind_lvr with_lvs l_q] in Q2.
+  assert (Lv2 : l_lv s2 = (v, r) :: l_lv st) by (rewrite (x_lv _ _ X2); cbn; rewrite Lv1; reflexivity).
+  assert (Ur1 : untracked s1 (Rg BR r)).
+  { split; [|intros; discriminate]. intros v' r' Hv' X. inversion X; subst. rewrite Lv1 in Hv'.
+    rewrite (i_lv _ I _ _ Hv') in Hfree. discriminate. }
+  set (st3 := release r (with_lvs s2 (l_lv st))).
+  assert (I3X : Inv st3 /\ Ext st st3) by (eapply close_loop; eauto). destruct I3X as [I3 X3].
+  assert (Ur3 : untracked st3 (Rg BR r)).
+  { apply untracked_free; [exact I3|]. rewrite (x_act _ _ X3). exact Hfree. }
+  (* the relation between rounds and after a body *)
+  assert (R21 : forall e0 s0, Rel L s2 e0 s0 -> Rel L s1 e0 s0).
+  { intros e0 s0 R0. eapply Rel_st; [exact R0|congruence| |].
+    - intros v' r' Hv'. rewrite Lv2. cbn. rewrite Lv1 in Hv'.
+      destruct (Nat.eqb v' v) eqn:Ev; [apply Nat.eqb_eq in Ev; subst; congruence|exact Hv'].
+    - intros r' m Hr. apply (x_rf _ _ X2). cbn. exact Hr. }
+  assert (R23 : forall e0 s0, Rel L s2 e0 s0 -> Rel L st3 (drop_lv v e0) s0).
+  { intros e0 s0 R0. apply Rel_drop; [|exact Hv]. eapply Rel_st; [exact R0|reflexivity| |].
+    - intros v' r' Hv'. cbn in Hv'. rewrite Lv2. cbn.
+      destruct (Nat.eqb v' v) eqn:Ev; [apply Nat.eqb_eq in Ev; subst; congruence|exact Hv'].
+    - intros r' m Hr. exact Hr. }
+  assert (Hfr : forall s0 s0', sx cbody s0 s0' -> m_reg s0' (Rg BR r) = m_reg s0 (Rg BR r)).
+  { intros s0 s0' Hsx. apply (proj1 sx_frame _ _ _ Hsx). intro Hin.
+    assert (F := proj2 (lower_frame_all true) body Hp _ _ _ Hb r Hin). unfold free_at in F.
+    cbn [bind_lvr with_lvs l_act] in F. rewrite Hact1 in F.
+    rewrite nth_set_nth_same in F by (apply nth_error_Some; congruence). discriminate. }
+  assert (Step : forall i e0 s0 e2, Rel L s1 e0 s0 -> m_reg s0 (Rg BR r) = Some i ->
+            eval_block body (bind_lv v i (drop_lv v e0)) = Some e2 ->
+            exists s2', sx cbody s0 s2' /\ Rel L s2 e2 s2' /\ m_reg s2' (Rg BR r) = Some i).
+  { intros i e0 s0 e2 R0 Hr Hev.
+    assert (Rb : Rel L (bind_lvr v r s1) (bind_lv v i (drop_lv v e0)) s0).
+    { apply Rel_bind; [exact R0|congruence|exact Hr]. }
+    destruct (IH Hwf L _ _ _ _ _ _ Hb Ib HL Hev Rb) as (s2' & X & R2').
+    exists s2'. split; [exact X|]. split; [exact R2'|]. rewrite (Hfr _ _ X). exact Hr. }
+  assert (R01 : Rel L s1 e sg) by (eapply Rel_sba; [exact HR|eapply sba_take; eauto]).
+  destruct n as [|n].
+  - (* no round *)
+    cbn [iter_loop] in Hit. inv_ok Hit. assert (Hnr := Hn0 eq_refl).
+    destruct (proj2 noreg_rf body Hnr Hp He _ _ _ Hb) as [RF2 _]. cbn [bind_lvr with_lvs l_rf] in RF2.
+    assert (R3 : Rel L st3 (drop_lv v e1) sg).
+    { apply Rel_drop; [|exact Hv]. eapply Rel_st; [exact HR| | |].
+      - cbn. congruence.
+      - intros v' r' Hv'. exact Hv'.
+      - intros r' m Hr. cbn in Hr. congruence. }
+    destruct (is_nil cbody).
+    + exists sg. split; [apply sx_nil|exact R3].
+    + exists (set_reg sg (Rg BR r) a). split; [|apply Rel_set_reg; assumption].
+      eapply sx_cons; [|apply sx_nil]. apply sx_Loop. apply sxl_done.
+      rewrite m_reg_set_same. f_equal. lia.
+  - destruct cbody as [|c0 cr]; cbn [is_nil].
+    + (* rounds without code *)
+      destruct (rounds0 (fun i e' => eval_block body (bind_lv v i (drop_lv v e'))) (Rel L s1) (Rel L s2) (Rg BR r))
+        with (n := n) (i := a) (st := step) (e := e) (sg := sg) (e' := e1) as (sgv & P & Ag); auto.
+      * intros i e0 s0 e2 R0 Hev.
+        destruct (Step i e0 (set_reg s0 (Rg BR r) i) e2) as (s2' & X & R2' & _); auto.
+        { apply Rel_set_reg; assumption. }
+        { apply m_reg_set_same. }
+        apply sx_nil_inv in X. subst. exists (set_reg s0 (Rg BR r) i). split; [exact R2'|apply agree_set].
+      * exists sg. split; [apply sx_nil|].
+        eapply Rel_agree; [apply R23; exact P|exact Ur3|apply agree_sym; exact Ag].
+    + destruct (rounds (Rg BR r) (c0 :: cr) (fun i e' => eval_block body (bind_lv v i (drop_lv v e'))) (Rel L s1) (Rel L s2))
+        with (n := n) (i := a) (st := step) (e := e) (sg := set_reg sg (Rg BR r) a) (e' := e1) (b := b)
+        as (sg1 & X & P); auto.
+      * intros e0 s0 z R0. apply Rel_set_reg; [apply R21; exact R0|exact Ur1].
+      * apply Rel_set_reg; assumption.
+      * apply m_reg_set_same.
+      * exists (set_reg sg1 (Rg BR r) b). split; [|apply Rel_set_reg; [apply R23; exact P|exact Ur3]].
+        eapply sx_cons; [|apply sx_nil]. apply sx_Loop. exact X.
 Qed.
